@@ -245,6 +245,62 @@ func checkC04(w *Worker) {
 			}
 		}
 	})
+	// F: single lines longer than the 4096-byte buffers but within the documented 64 KiB limit, in every line role
+	w.Explore("long-lines", ExploreOpts{ShardDepth: 2}, func(x *Exec) {
+		n := []int{4090, 4095, 4096, 4097, 5000, 8192, 20000, 65000}[x.Choose(8, "input:line-bytes")]
+		role := x.Choose(5, "input:role") // entry name, heading, comment line, named note value, text note
+		crlf := x.Choose(2, "input:crlf")
+		long := strings.Repeat("lorem ipsum dolor sit amet ", n/27+1)[:n]
+		long = strings.TrimRight(long, " ") + "z"
+		f := absFile{{Header: "first", Items: []absItem{{Name: "a", NumText: "1"}}}, {Header: "second", Items: []absItem{{Name: "b", NumText: "2"}, {Name: "c", NumText: "3"}}}}
+		comment := ""
+		switch role {
+		case 0:
+			f[1].Items[0].Name = long
+		case 1:
+			f[1].Header = long
+		case 2:
+			comment = "# " + long
+		case 3:
+			f[1].Items = append([]absItem{{IsNote: true, Name: "n", NoteText: long}}, f[1].Items...)
+		default:
+			f[1].Items = append([]absItem{{IsNote: true, NoteText: long}}, f[1].Items...)
+		}
+		eol := "\n"
+		if crlf == 1 {
+			eol = "\r\n"
+		}
+		var sb strings.Builder
+		for ri, r := range f {
+			sb.WriteString(r.Header + ":" + eol)
+			if ri == 1 && comment != "" {
+				sb.WriteString(comment + eol)
+			}
+			for _, it := range r.Items {
+				switch {
+				case it.IsNote && it.Name != "":
+					sb.WriteString("  # " + it.Name + ": " + it.NoteText + eol)
+				case it.IsNote:
+					sb.WriteString("  # " + it.NoteText + eol)
+				default:
+					sb.WriteString("  " + it.Name + ": " + it.NumText + eol)
+				}
+			}
+		}
+		text := sb.String()
+		x.Case(fmt.Sprint("long-line", n, role, crlf), true)
+		recs, errs, ret, pan := parseAll(text)
+		got, want := recsString(recs), recsString(wantRecs(f))
+		x.Obs(fmt.Sprint(len(recs), errs != nil, ret, pan, hash64([]byte(got))))
+		roleName := []string{"entry name", "heading", "comment line", "named note", "text note"}[role]
+		if pan != "" || ret != nil || len(errs) > 0 {
+			x.Violate("C04|long-lines|well-formed-file-rejected", fmt.Sprintf("file with a %d-byte %s: errors %v, returned %v, panic %q", n, roleName, tailStr(fmt.Sprint(errs), 300), ret, pan), map[string]interface{}{"line_bytes": n, "role": roleName})
+			return
+		}
+		if got != want {
+			x.Violate("C04|long-lines|wrong-records", fmt.Sprintf("file with a %d-byte %s: %d records parsed, expected %d; parsed %s", n, roleName, len(recs), len(f), tailStr(got, 400)), map[string]interface{}{"line_bytes": n, "role": roleName})
+		}
+	})
 	// D: the same through the real commands (csv database for books, csv log and print for logs)
 	appDev := 1
 	w.Explore("app-slice", ExploreOpts{ShardDepth: 5, Budgets: map[string]int{"layout": appDev}}, func(x *Exec) {
